@@ -156,6 +156,25 @@ reg('C19', 'exploration',
     'E4-bounded-exhaustive-enumeration')
 
 
+reg('C08', 'exploration',
+    'Every kernel class x accepted dimension x 13 smoothing lengths over 12 '
+    'decades x a q lattice containing 0, every piece boundary and the '
+    'support edge +-1 ulp and +-2^-40, 100 (quick) / 400 (thorough) points '
+    'per piece and points beyond the support x up to 14 directions: '
+    'compact support (exact zero), sign and monotonicity, gradient = '
+    'dwdq/h x/r and zero at r=0, dwdq and gradient_h against Richardson '
+    'finite differences of W, continuity across boundaries, normalisation '
+    'by per-piece Gauss-Legendre quadrature (Gaussian family against the '
+    'analytic truncated value of the documented formula), scaling law, '
+    'and bit/ulp agreement of the compiled twins requested through '
+    'get_compiled_kernel in two orders.',
+    'Trusted: finite-difference and quadrature references; nothing is '
+    'claimed between lattice points (the lattice enters every branch on '
+    'both sides of every boundary).',
+    'bounded-exhaustive numeric lattice enumeration with analytic/FD '
+    'oracles', 'E4-bounded-exhaustive-enumeration')
+
+
 def main():
     props = [json.loads(l) for l in open(os.path.join(V, 'properties.jsonl'))]
     checks = []
